@@ -186,6 +186,40 @@ PROPS = {
         trusted_base=["libp2p streams and pubsub are replaced by scripted fakes (delivery over real streams is runtime, not modelled)", "pubsubraw adapter not covered (needs a real libp2p pubsub)"],
         assumptions=["duplicate-free membership snapshots for the exactly-once clause"],
     ),
+    "C13": dict(
+        module="OrbitModel.Properties.C13",
+        theorems=["Orbit.C13.framing_round_trips", "Orbit.C13.save_errors_exactly_when_a_record_is_too_long",
+                  "Orbit.C13.save_errors_or_loads_back", "Orbit.C13.pinned_tree_wrote_unloadable_snapshot"],
+        families=[("snapshot", 60, 1500, 10)],
+        corr_fields={"values", "heads", "idx", "len", "ack", "sync"},
+        nontrivial=lambda lines: any(l.startswith("snapsaved ") or l.startswith("snapsave ") for l in lines),
+        rule="kv/doc/log histories by 1-3 writers (forks, deletions, payloads of 100 B to just under and just over the 64 KiB record limit), SaveSnapshot on a replica at a PRNG point, then a brand-new instance (empty cache) LoadFromSnapshot: a save either errors or the new instance lists the same values, heads and index; no panic; non-trivial = a snapshot was attempted",
+        trusted_base=["encoding/json round-trips an entry (parameter ser/de of the model; sampled)", "the fake unixfs stores files whole"],
+        assumptions=["ser/de left inverse", "header round-trips"],
+    ),
+    "C14": dict(
+        module="OrbitModel.Properties.C14",
+        theorems=["Orbit.C14.address_root_is_the_manifest", "Orbit.C14.different_inputs_different_addresses",
+                  "Orbit.C14.printed_address_parses_back", "Orbit.C14.accepted_names", "Orbit.C14.pinned_tree_answered_a_foreign_address"],
+        families=[("address", 80, 2500, 10)],
+        corr_fields={"values", "idx"},
+        nontrivial=lambda lines: sum(1 for l in lines if l.startswith(("detaddr ", "created ", "opened ", "parsed "))) >= 3,
+        rule="names drawn from plain, nested, unicode, empty, dotted, climbing (../x, a/../../b), absolute and address-like strings x 3 store types x write lists (own id, several ids, wildcard, empty); DetermineAddress on 2-3 peers, Create with and without overwrite, Open by address on other peers (plain and local-only), print/parse of every address: equal inputs must give equal addresses on every peer, distinct inputs distinct roots, refused exactly when the model refuses, type and write list as created; non-trivial = >= 3 address operations",
+        trusted_base=["the manifest CID is an injective function of (name, type, access-controller address) — sha2-256 + dag-cbor, parameter H of the theorem", "Go path.Join/Clean modelled on segment lists (Model/Path.lean), compared on every generated name"],
+        assumptions=["H injective"],
+    ),
+    "C15": dict(
+        module="OrbitModel.Properties.C15",
+        theorems=["Orbit.C15.effective_limit", "Orbit.C15.trim_panics_iff", "Orbit.C15.trim_keeps_newest",
+                  "Orbit.C15.load_lists_newest_n_of_a_chain", "Orbit.C15.load_one_head_never_panics_partial",
+                  "Orbit.C15.pinned_tree_panicked_or_emptied"],
+        families=[("limit", 80, 2500, 12)],
+        corr_fields={"values", "heads", "idx", "len", "load", "local", "remote"},
+        nontrivial=lambda lines: any(l.startswith("op restart ") and len(l.split()) > 3 for l in lines),
+        rule="single-writer chains and 2-3 writer forks of 1-14 entries, then a fresh instance on the same cache calls Load(n) for n in {-3..-1, 0, 1, total-1, total, total+1, 2*total, 10^6} and MaxHistory variants: the listing must have min(n,total) entries, be a subsequence of the persisted order, contain the newest entry, equal the last n for a single writer, and everything for n <= 0; a panic kills the harness and is attributed; non-trivial = a restart with a limit",
+        trusted_base=["the bounded Fetcher of go-ipfs-log (parameter fetch; contract: returns a suffix containing the newest min(n,T)) — exercised, not modelled", "several cached heads: checked on the implementation and on decide-checked instances, not proved in general"],
+        assumptions=["fetch contract"],
+    ),
     "C16": dict(
         module="OrbitModel.Properties.C16",
         theorems=["Orbit.C16.received_is_prefix_of_emitted", "Orbit.C16.nothing_lost_while_alive",
@@ -236,6 +270,18 @@ _TIE = ("Lean 4 theorems about a hand-written model + correspondence harness: th
         "PRNG histories and the compiled Lean driver replays every operation through the model and evaluates the "
         "property's L1 predicate on the implementation's own observations")
 MANIFEST_TEXT = {
+    "C13": dict(
+        text="Kernel-checked theorems: the 16-bit record framing round-trips for every list of records that save accepts; save returns an error exactly when the header or an entry exceeds 65535 bytes; for every reachable log whose entries the access controller accepts, save either errors or produces bytes from which a fresh store rebuilds a log with the same entries, Values() and heads. The pinned tree's silent length wrap-around (record of 65536 bytes written with length 0) is a proved witness replayed on the real store before the fix: commits (F9a-c). The snapshot family saves on real stores (payloads around the 64 KiB limit) and loads into brand-new instances.",
+        note="Trusted: Lean kernel + standard axioms; the JSON codec of one entry is a parameter with a left inverse (sampled by the harness); the unixfs file layer is a fake that stores files whole.",
+        technique="Lean 4 proof (codec round-trip by induction; rebuilt log joins to the same entries/order/heads) with differential correspondence on real save/load"),
+    "C14": dict(
+        text="Kernel-checked theorems over a segment-list model of Go's path.Join/Clean: the address answered names the manifest the inputs were hashed into; with an injective manifest hash different (name, type, access controller) give different addresses; every answered address prints and parses back to itself; the accepted names are characterised exactly. The pinned tree answered another database's address for a climbing name (decide-checked witness, replayed on the real code before the fix: commit). The address family compares DetermineAddress/Create/Open/Parse on 2-3 real peers with the model over adversarial names, store types and write lists.",
+        note="Trusted: Lean kernel + standard axioms; injectivity of the manifest CID (hash + dag-cbor) is a hypothesis; Create/Open refusal logic is compared on the implementation, not proved.",
+        technique="Lean 4 proof (path cleaning lemmas, parse/print inverse, injectivity) with differential correspondence over adversarial names"),
+    "C15": dict(
+        text="Kernel-checked theorems: the effective limit (n <= 0 falls back to MaxHistory, non-positive means all); Join(size) panics exactly when size exceeds the length and otherwise keeps the newest size entries in order; for EVERY chain length and EVERY limit, Load(n) on a fresh store with one cached head lists exactly the newest min(n,T) entries oldest first (all for n <= 0) even when the fetcher over-fetches; loading one head never panics on a closed log. The pinned tree's panic (n > total) and emptied log (n = 0) are decide-checked and were replayed on the real store before the fix: commit. The limit family loads real multi-writer logs with every boundary limit and checks count, order, newest and most-recent-n on the listing.",
+        note="Partial: for several cached heads the count/order/newest statement is checked on the implementation and on decide-checked instances, not proved in general; the bounded fetcher is a parameter with a stated contract.",
+        technique="Lean 4 proof (trim/Join size lemmas, chain induction) with differential correspondence over boundary limits"),
     "C16": dict(
         text="Kernel-checked theorems over the two-goroutine transition system of the legacy event channel, for every capacity and EVERY interleaving: what a subscriber has received is always a prefix of what was emitted (no reordering, duplication or gap), nothing is lost while its context lives, and a reader that keeps reading gets everything; the write path updates the view before it acknowledges/emits. The pinned reordering is a decide-checked witness replayed on the real emitter with a hook before the fix: commit. The harness queries stores from inside bus handlers and drives the real emitter with slow readers and a held drainer.",
         note="Partial: the libp2p eventbus (FIFO per subscriber, blocking emit) and Go's scheduling are assumed; goroutine steps are atomic under the emitter mutex.",
